@@ -685,6 +685,7 @@ func main() {
 				t.errs = append(t.errs, fmt.Sprintf("package %s: function %s not found", tg.Pkg, fn))
 				continue
 			}
+			nerr := len(t.errs)
 			obj := info.Defs[fd.Name].(*types.Func)
 			sig := obj.Type().(*types.Signature)
 			params := []string{}
@@ -708,6 +709,12 @@ func main() {
 			pos := fset.Position(fd.Pos())
 			end := fset.Position(fd.End())
 			relf, _ := filepath.Rel(*repo, pos.Filename)
+			if len(t.errs) > nerr {
+				// left the subset: refuse THIS function loudly and leave it out, so that exactly the
+				// bridge lemmas about it stop compiling (the rest of Gen.v is unaffected)
+				fmt.Fprintf(&buf, "(* %s:%d-%d  REFUSED by the translator (function %s is not emitted) *)\n\n", relf, pos.Line, end.Line, fn)
+				continue
+			}
 			fmt.Fprintf(&buf, "(* %s:%d-%d  sha256(src)=%x *)\n", relf, pos.Line, end.Line, h[:8])
 			fmt.Fprintf(&buf, "Definition %s %s : %s :=\n %s.\n\n", ident(fn), strings.Join(params, " "), rty, body)
 			items = append(items, genItem{Kind: "func", Pkg: tg.Pkg, Name: fn, Pos: fmt.Sprintf("%s:%d-%d", relf, pos.Line, end.Line), Hash: fmt.Sprintf("%x", h[:8])})
@@ -716,11 +723,11 @@ func main() {
 		allErrs = append(allErrs, t.errs...)
 	}
 
-	if len(allErrs) > 0 {
-		for _, e := range allErrs {
-			fmt.Fprintln(os.Stderr, "translator:", e)
-		}
-		os.Exit(1)
+	// Per-item problems (a function left the subset, a function or table was removed or renamed) are
+	// reported loudly but are not fatal: the item is simply absent from Gen.v, so the bridge lemmas
+	// that mention it — and only those — stop compiling.
+	for _, e := range allErrs {
+		fmt.Fprintln(os.Stderr, "translator: REFUSED/MISSING:", e)
 	}
 	if *out == "" {
 		os.Stdout.Write(buf.Bytes())
